@@ -497,6 +497,32 @@ func c12rJudge(c *Ctx, sp c12rSpec, outs []c12rOut, countHist bool) (vs []*c12rV
 	if len(outs) != len(sp.Steps) {
 		return nil, 0, 0, fmt.Sprintf("worker reported %d of %d steps", len(outs), len(sp.Steps))
 	}
+	// the semaphores the real setupSemaphores created vs the model's account (localSizes):
+	// cores, memory, vmem iff configured, and the process semaphore with mrp's standing
+	// reservation of startingThreadCount = 45, i.e. maxSize - 45 left for jobs
+	if b := outs[0].Before; true {
+		procs := "-"
+		real := []string{strconv.FormatInt(b[0].Max, 10), strconv.FormatInt(b[1].Max, 10)}
+		if b[2].Present {
+			real = append(real, strconv.FormatInt(b[2].Max, 10))
+		}
+		if b[3].Present {
+			procs = strconv.FormatInt(b[3].Max-45, 10)
+			real = append(real, procs)
+			if b[3].Res != 45 {
+				add(&c12rVerdict{"correspondence", "C12:refresh:model-mismatch",
+					fmt.Sprintf("before the first step the process semaphore has Reserved()=%d; setupSemaphores' standing reservation (startingThreadCount) is 45", b[3].Res), 0})
+			}
+		}
+		rep := c.Drv.Ask("C12.cfgsizes", fmt.Sprintf("%d,%d,%d,1,1,%d", sp.MaxCores, sp.MaxMemGB, sp.MaxVmemMB, sp.EV), procs, "0,0,0,0")
+		f := strings.Split(rep, "|")
+		if len(f) != 3 || f[0] != "1" || f[1] != strings.Join(real, ",") {
+			add(&c12rVerdict{"correspondence", "C12:refresh:model-mismatch",
+				fmt.Sprintf("semaphores created by setupSemaphores (sizes left for jobs) %v; model Sane|localSizes|… = %s", real, rep), 0})
+		} else if countHist {
+			r.hist("refresh_setup_sizes_compared")
+		}
+	}
 	var lastRefresh *c12rOut
 	for i := range outs {
 		o := &outs[i]
